@@ -20,6 +20,7 @@ fn do_case(case: Vec<i128>) {
                 2 => forms::run::<Tr, u32, Tr, N>(&case),
                 3 => forms::run::<u32, Tr, Tr, N>(&case),
                 4 => forms::run::<forms::Cn, forms::Cn, forms::Cn, N>(&case),
+                6 => forms::run::<harness::track::Tz, harness::track::Tz, harness::track::Tz, N>(&case),
                 _ => forms::run::<forms::Zs, forms::Zs, forms::Zs, N>(&case),
             },
             panic!("length {} not monomorphised", n)
@@ -30,6 +31,9 @@ fn do_case(case: Vec<i128>) {
             emit_obs(&obs);
             for o in oracle {
                 emit_oracle(&o);
+            }
+            if elem == 6 && harness::track::zlive() != 0 {
+                emit_oracle(&format!("zero-sized drop-counted elements: created minus dropped = {} after everything is gone", harness::track::zlive()));
             }
         }
         Err(m) => {
@@ -60,6 +64,11 @@ fn main() {
                 for pan in -1..(n as i128) {
                     dist(&format!("op{}", op));
                     do_case(vec![op, form, 0, n as i128, pan, 0, 0, mode]);
+                    // generate / default with zero-sized drop-counted elements
+                    if op == 3 || op == 5 {
+                        dist("zst_counted");
+                        do_case(vec![op, form, 6, n as i128, pan, 0, 0, mode]);
+                    }
                     // zip of a drop-tracked with a plain array and vice versa
                     if op == 1 {
                         dist("zip_mixed");
